@@ -37,6 +37,8 @@ CHECKS = {
          "bounded no-panic claim for the listed functions, not for long real-world lines; netip/regexp contract stubs; paths into findRegexpShortcut with symbolic input are cut and counted; engine; z3"),
  "C11": ("index packing injective and invertible for all int32 pairs; in-memory list content of 0..4/6 symbolic bytes scanned through the real RuleScanner+bufio.Reader+strings.Reader and retrieved through the real RetrieveRule: scanned sequence == line-by-line parse (kind, text, list id, index), RetrieveRule(idx) == scanned rule, CRLF invariance; storage of 1..3 lists with arbitrary int32 ids serves each index from the list and offset it names, duplicates rejected",
          "rule classification is an uninterpreted function of the trimmed line; file-backed lists (os.File short reads) are NOT modelled or claimed; engine; z3"),
+ "C20": ("findBodyInjectionIndex/isMatchFound on bodies of 0..9/13 symbolic bytes and on 16 KiB-boundary bodies (filler plus 9 symbolic bytes, marker straddling the window edge): index == first in-window marker (ASCII case-insensitive) else -1; the splice arithmetic keeps every byte in order",
+         "filterHTML I/O, Latin-1 round trip, headers, Content-Length and the template are NOT claimed; engine; z3"),
  "C16": ("unbounded in the fields the function reads (64-bit option word, 32-bit mask, exception flag fully symbolic under the parser's representation invariant); counterexamples replayed from rule text through the real parser",
          "InvRule on option words (validated natively on the repo's own rule corpus); go/ssa lowering; engine; z3"),
 }
